@@ -233,6 +233,14 @@ class C10(Harness):
         from ZConfig import schema as zs, loader as zl
         evs = self.events(unit, inp)
         concrete = all(isinstance(v, str) for v in inp.values())
+        from .. import instr
+        from ..oracles import dtspec
+        if not concrete:
+            def stub(af, x):
+                if not dtspec.is_ipv6(x):
+                    raise OSError('illegal IP address string passed to inet_pton')
+                return b''
+            instr.INET6['fn'] = stub
         try:
             if concrete:
                 ZConfig.loadSchemaFile(io.StringIO(render(evs)))
@@ -254,6 +262,8 @@ class C10(Harness):
             return ('reject-not-schema-error', type(e).__name__)
         except Exception as e:
             return ('crash', type(e).__name__, str(e)[:60])
+        finally:
+            instr.INET6['fn'] = None
 
     def expect(self, unit, inp, real):
         return (R.check(self.events(unit, inp)),)
